@@ -96,7 +96,9 @@ async fn run_hist(h: &Hist) -> HistOut {
     let handler = Arc::new(H20 { delay_pm: h.delay_pm, error_pm: AtomicU64::new(0), counter: AtomicU64::new(0), seed: h.seed, use_frames: Mutex::new(vec![]) });
     let sharded = NodeSpec { dc: Some("dc1".into()), rack: Some("r1".into()), tokens: vec![-500], sharding: Some(ShardSpec { nr_shards: 3, msb_ignore: 12, shard_aware_port: true }), features: Features::default() };
     let mut ks = vec![];
-    for n in ["ks1", "ks2", "Ks3", "ks"] {
+    // "Ks3" and "ks3", "ks2" and "KS2" are different keyspaces: a name used case-sensitively must not be folded,
+    // one used case-insensitively must be
+    for n in ["ks1", "ks2", "Ks3", "ks", "ks3", "KS2"] {
         ks.push(KeyspaceDef::simple(n, 2).with_table(TableDef::new("echo", &[("id", "bigint")], &[("payload", "blob")])));
     }
     let spec = ClusterSpec { nodes: vec![sharded.clone(), NodeSpec::simple("dc1", "r2", vec![500])], keyspaces: ks, cluster_name: "c20".into() };
@@ -150,7 +152,8 @@ async fn run_hist(h: &Hist) -> HistOut {
                     handler.error_pm.store(400, Ordering::SeqCst);
                 }
                 let op = next_op();
-                call(&log, op, "use_keyspace", *name);
+                // (a case-sensitive name is logged in quotes)
+                call(&log, op, "use_keyspace", if cs { format!("\"{name}\"") } else { name.to_string() });
                 let r = tokio::time::timeout(Duration::from_secs(20), session.use_keyspace(*name, cs)).await;
                 let ok = matches!(r, Ok(Ok(())));
                 ret(&log, op, ok, format!("{r:?}"));
@@ -256,8 +259,10 @@ fn judge(o: &mut Outcome, h: &Hist, r: &HistOut) {
         if accept_seq.get(conn).map(|a| *a > uses[ui].1).unwrap_or(false) {
             conns_after_use.insert(*conn);
         }
+        // the call names the keyspace as the server resolves it: literally when case-sensitive, folded otherwise
         let got = keyspace.as_deref().unwrap_or("");
-        if !got.eq_ignore_ascii_case(name) {
+        let want = if name.starts_with('"') { name.trim_matches('"').to_string() } else { name.to_lowercase() };
+        if got != want {
             let opened_after = accept_seq.get(conn).map(|a| *a > uses[ui].1).unwrap_or(false);
             o.violation(
                 if opened_after { "c20:request-on-new-connection-before-keyspace-set" } else { "c20:request-on-connection-in-other-keyspace" },
@@ -294,7 +299,11 @@ fn gen_hist(rng: &mut Rng, seed: u64) -> Hist {
     for _ in 0..n {
         steps.push(match rng.below(12) {
             0..=3 => Step::Use(names[rng.below(3) as usize], false),
-            4 => Step::Use("Ks3", true),
+            4 => match rng.below(4) {
+                0 | 1 => Step::Use("Ks3", true),
+                2 => Step::Use("KS2", false), // resolves to ks2
+                _ => Step::Use("ks3", false),
+            },
             5 | 6 => Step::Kill(rng.below(2) as usize),
             7 => Step::Restart(rng.below(2) as usize),
             8 => Step::AddNode,
@@ -324,6 +333,7 @@ fn name_is_valid(n: &str) -> bool {
 async fn validation(o: &mut Outcome, ctx: &Ctx) {
     let handler = Arc::new(H20 { delay_pm: 0, error_pm: AtomicU64::new(0), counter: AtomicU64::new(0), seed: 0, use_frames: Mutex::new(vec![]) });
     let cluster = MockCluster::start(single_node_spec(), handler.clone()).await;
+    cluster.allow_any_keyspace();
     let session = match connect(&cluster, |b| b).await {
         Ok(s) => s,
         Err(e) => {
